@@ -268,6 +268,11 @@ func isoCopy(dst, src reflect.Value, wrappers map[string]reflect.Type) {
 		dst.Set(reflect.New(dst.Type().Elem()))
 		isoCopy(dst.Elem(), src.Elem(), wrappers)
 	case reflect.Struct:
+		if src.Type() == dst.Type() {
+			// a runtime-owned struct shared by both packages (gogo's XXX_InternalExtensions): same value
+			dst.Set(src)
+			return
+		}
 		for i := 0; i < src.NumField(); i++ {
 			if src.Type().Field(i).PkgPath != "" { // unexported
 				continue
